@@ -246,3 +246,91 @@ func GenPaths(r *rand.Rand, d ZDesc, callable map[string]string, n int) []string
 	}
 	return res
 }
+
+// ---- C07: the object graph may change between requests: a request runs the method of the sub-object that is
+// held NOW (same registry, same link, same path) ----
+type MutBackend struct{ ID string }
+
+func (b *MutBackend) Who(ctx context.Context) (string, error) { zooHit(b.ID, "Who"); return b.ID, nil }
+
+type MutTenant struct{ Backend *MutBackend }
+type MutRoot struct {
+	Tenant *MutTenant
+	Direct *MutBackend
+}
+
+type MutCase struct {
+	Mut     bool     `json:"mut"`
+	Step    string   `json:"step"`
+	Fn      string   `json:"fn"`
+	Outcome string   `json:"outcome"`
+	Expect  string   `json:"expect"`
+	Hits    []string `json:"hits"`
+}
+
+func RunMutatingGraph() []MutCase {
+	zooTake()
+	root := &MutRoot{Tenant: &MutTenant{Backend: &MutBackend{"first"}}, Direct: &MutBackend{"d-first"}}
+	ctx, cancel := context.WithCancel(context.Background())
+	defer cancel()
+	reg := rpc.NewRegistry[struct{}, json.RawMessage](root, nil)
+	reqIn := make(chan json.RawMessage, 1)
+	resp := make(chan string, 4)
+	linkDone := make(chan error, 1)
+	go func() {
+		linkDone <- reg.LinkMessage(ctx,
+			func(b json.RawMessage) error { return nil },
+			func(b json.RawMessage) error {
+				var r struct {
+					Value json.RawMessage `json:"value"`
+					Err   string          `json:"err"`
+				}
+				json.Unmarshal(b, &r)
+				resp <- string(r.Value) + "/" + r.Err
+				return nil
+			},
+			func() (json.RawMessage, error) {
+				select {
+				case b := <-reqIn:
+					return b, nil
+				case <-ctx.Done():
+					return nil, ctx.Err()
+				}
+			},
+			func() (json.RawMessage, error) { <-ctx.Done(); return nil, ctx.Err() },
+			func(v any) (json.RawMessage, error) { b, err := json.Marshal(v); return b, err },
+			func(d json.RawMessage, v any) error { return json.Unmarshal(d, v) },
+			nil)
+	}()
+	var out []MutCase
+	call := func(step, fn, expect string) {
+		b, _ := json.Marshal(map[string]any{"call": step, "function": fn, "args": []any{}})
+		reqIn <- b
+		mc := MutCase{Mut: true, Step: step, Fn: fn, Expect: expect}
+		select {
+		case r := <-resp:
+			mc.Outcome = r
+		case err := <-linkDone:
+			mc.Outcome = "link ended: " + errText(err)
+			linkDone <- err
+		case <-time.After(3 * time.Second):
+			mc.Outcome = "hang"
+		}
+		mc.Hits = zooTake()
+		out = append(out, mc)
+	}
+	call("initial graph", "Tenant.Backend.Who", `"first"/`)
+	call("initial graph", "Direct.Who", `"d-first"/`)
+	root.Tenant = &MutTenant{Backend: &MutBackend{"second"}} // an intermediate pointer is replaced
+	call("after replacing the intermediate sub-object", "Tenant.Backend.Who", `"second"/`)
+	root.Tenant.Backend = &MutBackend{"third"} // the last pointer is replaced
+	call("after replacing the last sub-object", "Tenant.Backend.Who", `"third"/`)
+	root.Direct = &MutBackend{"d-second"}
+	call("after replacing a direct sub-object", "Direct.Who", `"d-second"/`)
+	cancel()
+	select {
+	case <-linkDone:
+	case <-time.After(3 * time.Second):
+	}
+	return out
+}
